@@ -225,6 +225,49 @@ def tlc_trace(module, cfg, trace, wd, env=None, timeout=1800, name=None, depth_f
     return res
 
 
+def tlc_trace_chunked(module, cfg, trace, wd, limit=120_000_000, parallel=3, **kw):
+    """Like tlc_trace for a monitor that judges every run (cfg .. end) on its own: the trace file is cut at run boundaries
+    into pieces of at most `limit` bytes (TLC loads a whole trace file into memory) and the integer counters and the
+    `viol` / `drift` lists of the pieces are merged."""
+    from concurrent.futures import ThreadPoolExecutor
+    if os.path.getsize(trace) <= limit:
+        return tlc_trace(module, cfg, trace, wd, **kw)
+    parts, size, k = [], 0, 0
+    f_out = None
+    with open(trace) as f:
+        for line in f:
+            if f_out is None or (size > limit and '"ev":"cfg"' in line):
+                if f_out:
+                    f_out.close()
+                pth = f"{trace}.part{k}"
+                k += 1
+                parts.append(pth)
+                f_out = open(pth, "w")
+                size = 0
+            f_out.write(line)
+            size += len(line)
+    if f_out:
+        f_out.close()
+    name = kw.pop("name", None) or module
+
+    def one(i):
+        r = tlc_trace(module, cfg, parts[i], wd, name=f"{name}.{i}", **kw)
+        os.remove(parts[i])
+        return r
+    with ThreadPoolExecutor(parallel) as ex:
+        results = list(ex.map(one, range(len(parts))))
+    total = {"pieces": len(parts)}
+    for r in results:
+        for key, val in r.items():
+            if isinstance(val, bool) or key.startswith("_"):
+                continue
+            if isinstance(val, int):
+                total[key] = total.get(key, 0) + val
+            elif isinstance(val, list):
+                total.setdefault(key, []).extend(val)
+    return total
+
+
 def strip_tlc(out):
     return "\n".join(l for l in out.splitlines()
                      if not re.match(r"^(Linting|Semantic processing|Parsing file|Picked up)", l))
